@@ -34,6 +34,11 @@ func main() {
 			usage()
 		}
 		runChunks(os.Args[4], readScenarios(os.Args[2]), os.Args[3], int(atoi(os.Args[5])))
+	case "childbuild":
+		if len(os.Args) < 3 {
+			usage()
+		}
+		cmdChildBuild(os.Args[2])
 	case "genrun":
 		// genrun <family> <seed> <n> <outdir> <perfile>
 		if len(os.Args) < 7 {
